@@ -43,7 +43,8 @@ QUICK_EXTRA = {"C18": ["memcheck"], "C19": ["memcheck"]}
 
 # per-leg case budgets (cases per shard process) for the slow tools
 MIRI_SHARDS = NCPU
-MIRI_CASES = {"default": 120, "C09": 24, "C10": 40, "C11": 40, "C16": 300, "C18": 12, "C12": 80}
+MIRI_CASES = {"default": 400, "C09": 60, "C16": 2000}
+MIRI_SECONDS = 240
 MEMCHECK_CASES = {"quick": 150, "thorough": 1500}
 
 
@@ -294,7 +295,7 @@ def run_leg(env, leg, pid, tier, seed, replay):
         renv = {"ASAN_OPTIONS": "halt_on_error=1:abort_on_error=0:detect_leaks=1:exitcode=98",
                 "TSAN_OPTIONS": "halt_on_error=1:exitcode=66:second_deadlock_stack=1"}
         # sanitizer builds are 3-10x slower: run a slice of the thorough workload
-        extra = ["--stride", "7"] if name == "asan" else ["--stride", "3"]
+        extra = ["--stride", "5"] if (name == "asan" and pid in ("C08", "C09")) else []
         call = lambda: run_hsv(env, name, binp, pid, tier, seed, replay, extra, of(), 3600, runner_env=renv)
         rc, out, _ = call()
         return san_result(finish_leg(env, name, pid, rc, out, of(), lambda: call()[:2]), name)
@@ -310,7 +311,7 @@ def run_leg(env, leg, pid, tier, seed, replay):
             if os.path.exists(o):
                 os.remove(o)
             cmd = ["cargo", "+nightly", "miri", "run", "--offline", "--", pid, "--tier", tier, "--seed", str(seed), "--leg", "miri",
-                   "--threads", "1", "--shard", "%d/%d" % (i, shards), "--max-cases", str(n), "--out", o]
+                   "--threads", "1", "--shard", "%d/%d" % (i, shards), "--max-cases", str(n), "--time-budget", str(MIRI_SECONDS), "--out", o]
             procs.append((i, o, cmd, subprocess.Popen(cmd, cwd=env.harness, env=e, stdout=subprocess.PIPE, stderr=subprocess.STDOUT, text=True, errors="replace")))
         parts, bad = [], []
         deadline = time.time() + 3000
